@@ -281,11 +281,21 @@ fn run_gimli(h: &Hdr, ops: &[Op]) -> Out {
                     }
                     row.line = r.line;
                     row.column = r.col;
-                    row.discriminator = r.disc;
+                    // generate_row is documented to reset these four after every row: they are only
+                    // assigned when the script asks for them
+                    if r.disc != 0 {
+                        row.discriminator = r.disc;
+                    }
+                    if r.bb {
+                        row.basic_block = true;
+                    }
+                    if r.pe {
+                        row.prologue_end = true;
+                    }
+                    if r.eb {
+                        row.epilogue_begin = true;
+                    }
                     row.is_statement = r.stmt;
-                    row.basic_block = r.bb;
-                    row.prologue_end = r.pe;
-                    row.epilogue_begin = r.eb;
                     row.isa = r.isa;
                     program.generate_row();
                 }
